@@ -252,6 +252,7 @@ func c13RunOnce(ops []WOp, level int, calls []int, probe bool, choices []bool, k
 		}
 	}
 	e.SetLevel(slog.Level(level)).SetColorMode(false)
+	historyPrelude(level*5 + len(ops)*3 + len(calls)*7 + len(choices))
 	res.before = c13Fingerprint(e)
 	events = nil
 	attempts = 0
